@@ -323,4 +323,7 @@ def register(_reg, _mt, STD):  # noqa: ANN001
     _extend('C16', [round5.rule_record_holds_fields])
     _extend('C12', [round5.rule_internal_layout_writes_tag_key])
     _extend('C05', [round5.rule_internal_layout_writes_tag_key])
+    _extend('C14', [round5.rule_constructor_uses_field_converters])
+    _extend('C18', [round5.rule_constructor_uses_field_converters])
+    _extend('C17', [round5.rule_bindings_scoped_to_base, round5.rule_parameters_from_all_bases])
     _extend('C20', [rename.rule_c20_r6, rename.rule_c20_r7, round5.rule_style_guard_agrees])
